@@ -6,7 +6,7 @@ set -u
 cd $wt || exit 2
 git diff -- src > $wt/patch.diff
 [ -s $wt/patch.diff ] || { echo "NO PATCH"; exit 2; }
-out=/verif/seeded/$pid; mkdir -p $out
+out=/verif/seeded/$pid${SUFFIX:-}; mkdir -p $out
 cp $wt/patch.diff $out/patch.diff; cp $wt/demo_$pid.py $out/ 2>/dev/null
 echo "== test-suite with the change"
 suite=$(PYTHONPATH=$wt/src /venv/bin/python -m pytest -q -p no:cacheprovider --timeout=900 2>&1 | tail -1); echo "$suite"
